@@ -1,4 +1,4 @@
-WIP["C41"] = dict(
+CHECKS["C41"] = dict(
     level="exploration", engine="E5-lite",
     technique="property-based testing of the running LFB-ticket worker: generated adversarial ticket streams through the real HTTP handler function, interleaved (sequentially and from concurrent goroutines) with local broadcasts, miner kicks and magic-block changes; invariant oracle on every reported latest ticket with harness-owned keys",
     level_text="Per case a fresh Chain with generated magic blocks and the real StartLFBTicketWorker goroutine; generated bursts of tickets (any round; signer a sharder of the magic block in force, a sharder outside it, a miner, a registered node in no magic block, self, an unknown or malformed id; signature valid, empty, garbage, by another key, genuine over another round or hash) go through LFBTicketHandler, local blocks through BroadcastLFBTicket, unsigned kicks through AddReceivedLFBTicket. After each burst the reported latest ticket must not have a lower round than before, and a newly adopted received ticket must equal a ticket that was sent, name a sharder of the magic block in force and verify under that sharder's key. Exploration: says nothing about streams and interleavings that were not generated.",
